@@ -1,13 +1,13 @@
 """C08 — a constrained solver returns exactly the compliant solutions."""
 from props import _ikcommon as K
 ID = "C08"
-COQ_TARGETS = ["Exec/Kin.vo", "Properties/C08.vo"]
+COQ_TARGETS = ["Exec/Kin.vo", "Gen/Delegation.vo", "Properties/C08.vo"]
 THEOREMS = ["C08_inverse_is_filter", "C08_inverse_5dof_is_filter", "C08_continuing_all_compliant",
-            "C08_continuing_5dof_all_compliant", "C08_continuing_keeps_compliant", "C08_dof5_dispatch"]
+            "C08_continuing_5dof_all_compliant", "C08_continuing_keeps_compliant", "C08_dof5_dispatch", "C08_stack_reports_inner_limits", "C08_parallelogram_reports_inner_limits"]
 LEVEL_TEXT = ("Coq theorems for every constraint set, robot, pose, previous vector and oracle behaviour: constrained inverse / inverse_5dof "
               "= filter of the unconstrained list (order kept), every continuation answer compliant, compliant unconstrained continuation "
               "answers are kept (non-sentinel), 5-DOF robots dispatch to the filtering entry points")
-LEVEL_NOTE = K.NOTE + "; wrapper delegation of constraints() is covered under C09"
+LEVEL_NOTE = K.NOTE + "; wrapper delegation of constraints() is proved about the delegation code re-translated from the source (C08_stack_reports_inner_limits) and exercised by the oracle through stacks of depth 1..3 incl. a parallelogram"
 TECHNIQUE = K.TECH
 RULE = ("KIN records: random robots (dof 5/6, signs, offsets) x pose kinds (reachable, J5=0, J5=pi, random) x 4 entry points x "
         "constraint sets (narrow, wrapping, wide, from==to) x previous kinds incl. sentinel; oracle cases compare constrained and "
